@@ -155,22 +155,60 @@ def run(chk):
                                     if cl is not None:
                                         atoms.update(B.ATOMS.name(x) for x in cl[0])
                         true_atoms = {B.ATOMS.name(c.bits[0][0][0]) for c in o.pc if isinstance(c, W) and c.val is None and c.bits[0] is not None and len(c.bits[0][0]) == 1 and c.bits[0][1] == 0b10}
-                        if "str.is_ascii" not in true_atoms and not all(("strpred@%d:hexdigit-all" % (k * w)) in true_atoms for k in range(T)):
+                        import re as _re
+
+                        def preds(names):
+                            out = []
+                            for a_ in names:
+                                m_ = _re.match(r"^strpred@(\d+|\?)\+(\d+|\?):([\w-]+)#\d+$", a_)
+                                if m_:
+                                    s0 = int(m_.group(1)) if m_.group(1) != "?" else None
+                                    l0 = int(m_.group(2)) if m_.group(2) != "?" else None
+                                    out.append((s0, l0, m_.group(3)))
+                            return out
+                        true_preds, all_preds = preds(true_atoms), preds(atoms)
+
+                        def covered(pos_, w_):
+                            return any(tg == "hexdigit-all" and s0 is not None and l0 is not None and s0 <= pos_ and pos_ + w_ <= s0 + l0 for s0, l0, tg in true_preds)
+
+                        def unknown_overlap(pos_, w_):
+                            for s0, l0, tg in all_preds:
+                                if tg in ("hexdigit-all",):
+                                    continue
+                                if s0 is None or l0 is None:
+                                    return True
+                                if tg == "prefix":
+                                    if s0 >= pos_ and s0 < pos_ + w_:
+                                        return True
+                                    continue
+                                if tg == "suffix":
+                                    if s0 + l0 > pos_ and s0 + l0 <= pos_ + w_:
+                                        return True
+                                    continue
+                                if s0 < pos_ + w_ and pos_ < s0 + l0:
+                                    return True
+                            return False
+                        if "str.is_ascii" not in true_atoms and not all(covered(k * w, w) for k in range(T)):
                             v, d = UNDECIDED, "Ok path without the ASCII test"
                             break
                         words = K.words(it, o.state, r.fields[0])
+                        unknown_chunk = None
                         for k in range(T):
                             pos = k * w
                             uses_parse = any(a.startswith("parse@%d" % pos) for a in atoms)
-                            if uses_parse:
-                                guard = [a for a in true_atoms if a.startswith("strpred@%d:hexdigit-all" % pos)]
-                                other = [a for a in atoms if a.startswith("strpred") and a not in guard]
-                                if not guard:
-                                    if any(a.startswith("strpred@%d" % pos) or a.startswith("strpred") and "@" not in a for a in atoms):
-                                        v, d = UNDECIDED, "chunk %d is guarded by a test the checker does not recognise" % k
-                                    else:
-                                        v, d = REFUTED, "chunk at offset %d reaches u64::from_str_radix without an all-hex-digits test: a leading '+' is accepted (e.g. '+%s')" % (pos, "f" * (w - 1))
+                            if uses_parse and not covered(pos, w):
+                                if unknown_overlap(pos, w):
+                                    unknown_chunk = k
+                                else:
+                                    v, d = REFUTED, "the chunk at offset %d reaches u64::from_str_radix without an all-hex-digits test: a leading '+' is accepted there (e.g. %s'+%s')" % (pos, "'" + "0" * pos + "' followed by " if pos else "", "f" * (w - 1))
                                     break
+                        if v != PROVED:
+                            break
+                        if unknown_chunk is not None:
+                            v, d = UNDECIDED, "chunk %d is guarded by a test the checker does not recognise" % unknown_chunk
+                            break
+                        for k in range(T):
+                            pos = k * w
                             # chunk k lands in word T-1-k and nothing above 2^n
                             wd = words[T - 1 - k]
                             exp = [B.atom("parse@%d[%d]" % (pos, bb)) if bb < min(64, 4 * w) else ZERO for bb in range(64)]
